@@ -1,9 +1,15 @@
 From Coq Require Import Arith NArith Bool List.
-Require Import Canon SemTk TableProto BddBase BddIte BddCR BddSat BddCof BddCof2 BddCtor BddEval BddPaths BddReach BddExport BddDot Glue Hashes Machine.
+Require Import Canon SemTk TableProto CacheProto RawProto EdaProto SignalProto Standalone BddBase BddIte BddCR BddSat BddCof BddCof2 BddCtor BddEval BddPaths BddReach BddExport BddDot Glue Hashes Machine.
 From Coq Require Extraction ExtrOcamlBasic.
 (* The executable model handed to the correspondence harness: the register machine of Machine.v instantiated with the
    crate's hash functions (Hashes.v) and memo tables.  No Extract Constant / Extract Inductive beyond ExtrOcamlBasic. *)
 Definition step_cfg (fuel : nat) (mr : mstate * regs) (o : hop) :=
   @step nhash khash memo_ref memo_dm memo_nref memo_refN fuel mr o.
 Definition init_cfg (bm cm sm cap : N) : mstate * regs := (init bm cm sm cap, nil).
-Extraction "model.ml" step_cfg init_cfg.
+Extraction "model.ml" step_cfg init_cfg
+  tbl_new tbl_put tbl_sweep
+  ncache_new ncache_get ncache_insert ncache_clear kcache_new kcache_get kcache_insert kcache_clear
+  raw_new raw_step raw_reserve raw_iter
+  eda_arena eda_to_boxed eda_eval
+  SignalProto.from_var SignalProto.from_input SignalProto.sig_index SignalProto.is_const SignalProto.is_input
+  SignalProto.is_var SignalProto.is_negated SignalProto.sig_var SignalProto.sig_input SignalProto.snot.
